@@ -55,6 +55,12 @@ Run(ch, i, st, sc, cfg) ==
              IN  [res |-> x.res,
                   st  |-> [x.st EXCEPT !.dl = IF LegacyTimeout THEN TRUE ELSE st.dl,
                                        !.ctx = IF LegacyTimeout THEN "cancelled" ELSE st.ctx]]
+        \* Timeout(0): the handler runs with a deadline that has already passed (a done context), restored afterwards
+        [] m = "TimeoutZero" ->
+             LET x == Run(ch, i + 1, [st EXCEPT !.dl = TRUE, !.ctx = "cancelled"], sc, cfg)
+             IN  [res |-> x.res,
+                  st  |-> [x.st EXCEPT !.dl = IF LegacyTimeout THEN TRUE ELSE st.dl,
+                                       !.ctx = IF LegacyTimeout THEN "cancelled" ELSE st.ctx]]
         [] m = "CorrelationID" ->
              LET x == Run(ch, i + 1, st, sc, cfg) IN
              IF Panicked(x.res) THEN x
